@@ -193,6 +193,7 @@ def cast_with_recorded(field_desc, raw, missing):
 
 def typed_case(item):
     import random
+    import copy as copy_
     setup_repo()
     r = random.Random(item['seed'])
     cfg = item['cfg']
@@ -232,6 +233,9 @@ def typed_case(item):
             rows = [{n: rand_value(r, tp, tier, 1000 if cfg['temporal'] else 1) for n, tp in zip(names, types)} for _ in range(r.randint(0, 5))]
             # resource names (hence file names) with dots that share everything before the first dot: two resources, two files
             resources.append((('res%d' if cfg.get('missing') else 'data.v%d') % ri, fields, rows, None, ({'missingValues': list(cfg['missing'])} if cfg.get('missing') else None)))
+        if cfg['nres'] == 2 and r.random() < 0.25:
+            # the second resource holds exactly the same table as the first (byte-identical files under two names)
+            resources[1] = (resources[1][0],) + tuple(copy_.deepcopy(x) for x in resources[0][1:])
         opts = dict(add_filehash_to_path=cfg['filehash'])
         if cfg['temporal']:
             opts['temporal_format_property'] = 'outputFormat'
